@@ -91,7 +91,7 @@ type lexer struct {
 	tag      struct {      // current tag
 		name  string      // name
 		attr  string      // current attribute name
-		index int         // index of first byte of the current attribute value in src
+		index int         // number of bytes of src from the first byte of the current attribute value
 		ctx   ast.Context // context of the tag's content
 	}
 	rawMarker      []byte     // raw marker, not nil when a raw statement has been lexed
@@ -423,7 +423,7 @@ func (l *lexer) scan() {
 								lin = l.line
 								col = l.column
 							} else {
-								l.tag.index = p
+								l.tag.index = len(l.src) - p
 								if quote == 0 {
 									l.ctx = ast.ContextUnquotedAttr
 								} else {
@@ -449,10 +449,12 @@ func (l *lexer) scan() {
 						p = 0
 						lin = l.line
 						col = l.column
-					} else if l.tag.attr == "type" {
+					} else if start := len(l.src) - l.tag.index; l.tag.attr == "type" && start >= 0 {
+						// If start is negative, the value contains template
+						// code and the type is not known.
 						switch l.tag.name {
 						case "script":
-							typ := l.src[l.tag.index:p]
+							typ := l.src[start:p]
 							if bytes.Equal(typ, moduleType) {
 								break
 							}
@@ -465,7 +467,7 @@ func (l *lexer) scan() {
 								}
 							}
 						case "style":
-							if typ := bytes.TrimSpace(l.src[l.tag.index:p]); len(typ) > 0 {
+							if typ := bytes.TrimSpace(l.src[start:p]); len(typ) > 0 {
 								if !bytes.EqualFold(typ, cssMimeType) {
 									l.tag.ctx = fileContext
 								}
